@@ -15,22 +15,6 @@ EXPLANATION = (
     "is checked separately (analytic iff .deriv, else central difference).")
 
 
-def tabulation_output(P, clsname, elem, extra=()):
-    I = W.make_interp(P, elem=elem)
-    cls = P.cls("atsim.potentials.pair_tabulation", clsname)
-    inst = I.instantiate(cls, [W.param("potentials"), W.nsym("cutoff"), W.nsym("nr")], {}, None)
-    fp = BufV("fp", is_file=True)
-    W.run_method(I, inst, "write", [fp])
-    return I, W.out_tree(fp)
-
-
-def spec_output(P, name, args):
-    J = W.make_interp(P)
-    fp = BufV("fp", is_file=True)
-    J.run(P.func("spec.writers", name), list(args) + [fp])
-    return J, W.out_tree(fp)
-
-
 def run(chk):
     P = W.load_program()
     chk.explanation = EXPLANATION
@@ -44,10 +28,10 @@ def run(chk):
     chk.rule("C01.G6", "finite-difference step defaults", 4)
 
     elem = {("param", "potentials"): W.POT}
-    _, expect = spec_output(P, "lammps_pair_table", [W.param("potentials"), W.nsym("cutoff"), W.nsym("nr")])
+    _, expect = W.spec_output(P, "lammps_pair_table", [W.param("potentials"), W.nsym("cutoff"), W.nsym("nr")])
 
     # W1: tabulation class
-    I, found = tabulation_output(P, "LAMMPS_PairTabulation", elem)
+    I, found = W.tabulation_output(P, "LAMMPS_PairTabulation", elem)
     W.compare_trees(chk, "C01.W1", "LAMMPS_PairTabulation.write", I, found, expect)
     calls = I.call_sites
 
@@ -59,7 +43,7 @@ def run(chk):
     W.compare_trees(chk, "C01.W2", "writePotentials('LAMMPS')", I2, W.out_tree(fp), expect)
 
     # F: factory route
-    factory_route(chk, P, "C01.F", "LAMMPS", "LAMMPS_PairTabulation", min_nr=3)
+    W.factory_route(chk, P, "C01.F", "LAMMPS", "LAMMPS_PairTabulation", min_nr=3)
 
     # P: Potential.energy / force
     I3 = W.make_interp(P)
@@ -85,54 +69,3 @@ def run(chk):
     chk.assume("accuracy of the central-difference fallback beyond the step-size bound G6 is not decided")
 
 
-def factory_route(chk, P, rule, target, clsname, min_nr=None, eam=False):
-    """TABULATION_FACTORIES[target].create_tabulation(cp) -> instance of clsname with the parser's grid"""
-    I = W.make_interp(P)
-    mod = P.module("atsim.potentials.config._tabulation_factories")
-    table = I.module_global(mod, "TABULATION_FACTORIES")
-    if not isinstance(table, DictV):
-        raise AnalysisError("TABULATION_FACTORIES is not a dict literal")
-    k = Const(target).key()
-    site = "%s TABULATION_FACTORIES" % mod.relpath
-    if k not in table.items:
-        chk.ob(rule, "target %r registered" % target, False, site=site, found=sorted(x.v for x, _ in table.items.values()),
-               expect=target, key="%s|%s|registered" % (rule, target))
-        return None
-    fac = table.items[k][1]
-    tc = I.getattr(fac, "tabulation_class")
-    ok = isinstance(tc, ClassV) and tc.ci.name == clsname
-    chk.ob(rule, "factory for %r instantiates %s" % (target, clsname), ok, site=site, found=tc, expect=clsname,
-           key="%s|%s|class" % (rule, target))
-    # run create_tabulation with an opaque parser; builders replaced by opaque results
-    I.hooks["atsim.potentials.config._potential_form_registry:Potential_Form_Registry.__init__"] = lambda i, fv, a, k, n: NONE
-    I.hooks["atsim.potentials.config._modifier_registry:Modifier_Registry.__init__"] = lambda i, fv, a, k, n: NONE
-    I.hooks["atsim.potentials.config._tabulation_factories:_create_pair_objects"] = lambda i, fv, a, k, n: W.param("potentials")
-    I.hooks["atsim.potentials.config._tabulation_factories:PairTabulationFactory._log_tabulation_details"] = lambda i, fv, a, k, n: NONE
-    if eam:
-        def eam_builder_init(i, fv, a, k, n):
-            fv.selfv.attrs["_potlist"] = W.param("eam_potentials")
-            return NONE
-        I.hooks["atsim.potentials.config._eam_potential_builder:EAM_Potential_Builder.__init__"] = eam_builder_init
-        I.hooks["atsim.potentials.config._tabulation_factories:EAMTabulationFactory._create_reference_data"] = \
-            lambda i, fv, a, k, n: W.param("reference_data")
-    cp = W.param("cp")
-    tab = W.run_method(I, fac, "create_tabulation", [cp])
-    if not isinstance(tab, InstV):
-        raise AnalysisError("create_tabulation did not return an instance: %r" % (tab,))
-    tabpath = ("attr", ("param", "cp"), "tabulation")
-
-    def grid(attr, default):
-        o = Opaque(("attr", tabpath, attr))
-        return Phi(Cond("isnone", o), Num(ep.const(default)), o)
-
-    checks = [("potentials", W.param("potentials")), ("cutoff", grid("cutoff", 10)), ("nr", grid("nr", 1001))]
-    if eam:
-        checks += [("eam_potentials", W.param("eam_potentials")), ("cutoff_rho", grid("cutoff_rho", 100)), ("nrho", grid("nrho", 1001))]
-    from ..treecmp import Cmp
-    c = Cmp(I)
-    for attr, want in checks:
-        got = I.getattr(tab, attr)
-        ok = c.val_eq(got, want)
-        chk.ob(rule, "%s tabulation.%s is the parser's value (documented default when absent)" % (target, attr), ok, site=site,
-               found=got, expect=want, key="%s|%s|arg-%s" % (rule, target, attr))
-    return I, tab
